@@ -135,10 +135,15 @@ type Sim struct {
 	InvOn          bool // evaluate white-box invariants at quiescent points
 }
 
+// Failf records a violation.  It must be callable while the caller holds m.mu (oracles often
+// iterate over harness state under that mutex), so it must not wait for it: harness threads
+// run one at a time under the scheduler, a failed TryLock therefore means "held by the caller".
 func (m *Sim) Failf(oracle, format string, args ...any) {
-	m.mu.Lock()
+	locked := m.mu.TryLock()
 	m.viol = append(m.viol, Violation{Oracle: oracle, Msg: fmt.Sprintf(format, args...)})
-	m.mu.Unlock()
+	if locked {
+		m.mu.Unlock()
+	}
 }
 
 func (m *Sim) Observe(format string, args ...any) {
@@ -286,6 +291,9 @@ func (m *Sim) nameLock(p unsafe.Pointer) string {
 	seen := m.streamsSeen
 	m.mu.Unlock()
 	for _, s := range seen {
+		if s == nil {
+			continue // a failed OpenStream was recorded
+		}
 		if p == unsafe.Pointer(&s.lock) {
 			return "stream.lock"
 		}
